@@ -1,5 +1,5 @@
 ----------------------------- MODULE MC_Minify -----------------------------
-EXTENDS Minify, TLC, Json
+EXTENDS Minify, TLC, Json, BigCases
 CONSTANTS U, MaxLen, Emit
 VARIABLES s, cnt
 
@@ -19,7 +19,7 @@ Case(t) ==
                <<"C13: JSON with comments is not minified to its comment- and whitespace-free form", t>>)
      /\ (Emit => PrintT(ToJson(<<"M", t, out, valid>>)))
 
-Init == s = <<>> /\ cnt = 0
+Init == (IF U = "big" THEN s \in BigMinifyTexts ELSE s = <<>>) /\ cnt = 0      \* "big": every byte value in every position, long strings/comments (no growth)
 Next == cnt < MaxLen /\ \E u \in Units : s' = s \o u /\ cnt' = cnt + 1
 InvCase == Case(s)
 View == s
